@@ -476,3 +476,24 @@ m("x7-find-region-sub-tests-other", "C02", MM, _FR_ORIG, _fr_sub(idx="prev.satur
 m("x7-find-region-last-strict", "C02", MM, _FR_ORIG, _fr_last(cmp="<"), "?")
 m("x7-find-region-prefix-first", "C02", MM, _FR_ORIG, _fr_last(pick="first"), "?")
 m("x7-find-region-prefix-inclusive", "C02", MM, _FR_ORIG, _fr_last(rng="..=x.min(self.regions.len() - 1)"), "?")
+
+# try_access accounting spelt as a match on Ordering (accepted since refactor round 5), each with one defect
+_TA_ORIG = """                    total = match total.checked_add(len) {
+                        Some(x) if x < count => x,
+                        Some(x) if x == count => return Ok(x),
+                        _ => return Err(Error::CallbackOutOfRange),
+                    };"""
+def _ta_ord(less="total = new_total", equal="return Ok(new_total)", greater="return Err(Error::CallbackOutOfRange)", other=None):
+    arms = f"""                        std::cmp::Ordering::Less => {less},
+                        std::cmp::Ordering::Equal => {equal},
+                        std::cmp::Ordering::Greater => {greater},""" if other is None else other
+    return f"""                    let Some(new_total) = total.checked_add(len) else {{
+                        return Err(Error::CallbackOutOfRange);
+                    }};
+                    match new_total.cmp(&count) {{
+{arms}
+                    }}"""
+m("x7-ordering-equal-continues", "C03", GM, _TA_ORIG, _ta_ord(equal="total = new_total"), "?")
+m("x7-ordering-greater-accepted", "C03", GM, _TA_ORIG, _ta_ord(greater="return Ok(new_total)"), "?")
+m("x7-ordering-less-returns", "C03", GM, _TA_ORIG, _ta_ord(less="return Ok(new_total)"), "?")
+m("x7-ordering-wildcard-swallows-equal", "C03", GM, _TA_ORIG, _ta_ord(other="                        std::cmp::Ordering::Greater => return Err(Error::CallbackOutOfRange),\n                        _ => total = new_total,"), "?")
